@@ -75,7 +75,7 @@ def build_msgs(case):
 
 def run_one(case):
     info = {}
-    with World(role=case["role"], apps=["s6a"], line_preempt=case["lines"], max_steps=600000) as w:
+    with World(role=case["role"], apps=["s6a"], line_preempt=case["lines"], max_steps=600000, line_holds=conc.wants_line_holds(case.get("holds"))) as w:
         if not w.open_connection():
             return [V("harness: connection setup failed", "harness/setup", w.state())], info
         msgs = build_msgs(case)
@@ -201,6 +201,8 @@ def _collect(shard, seed, n):
             f.add("preempted-at-source-line")
         if case.get("holds"):
             f.add("targeted-delay")
+            if conc.wants_line_holds(case.get("holds")):
+                f.add("delay-between-source-lines")
         if any(m["size"] >= 90000 for s in case["subs"] for m in s["msgs"]):
             f.add("crosses-send-buffer-limit")
         if any(m["size"] >= 262100 for s in case["subs"] for m in s["msgs"]):
